@@ -1,5 +1,7 @@
 (* C18 - the `trias` output file reproduces the assembled image for the RP2040 loader.
-   Statements only; proofs live in Bin/TriasProofs.v .. TriasProofs6.v and Bin/TriasEmit.v.
+   Statements only; proofs live in Bin/TriasProofs.v .. TriasProofs6.v, Bin/TriasEmit.v (the post-processing on a memory
+   map) and Bin/PipeBytesMap.v, PipeBytes.v, PipeBytesText.v, TriasPipeline.v (the tie to the program: source text ->
+   library pipeline -> post-processing -> file).
    Model:  Bin/TriasModel.v  (`post`: the statements of src/bin/assembler.rs after ctx.finalize(): boot-sector checksum,
            page padding loop, UF2 emission; `main_model`: the decision of `main`), built on Mem/MapModel.v, Uf2/CrcModel.v,
            Uf2/WriteModel.v.
@@ -24,7 +26,29 @@
    2^32 - 1 or more bytes + regions (an image filling the whole 4 GiB address space from page 0 on); for them the
    statement is only exercised by the correspondence stream.
 
-   Everything else of the property is proved for the model, in both build profiles (dbg): no theorem is `_partial`.
+   END TO END (second half of this file).  The map `m` of the theorems above is the output of the assembly pipeline:
+   Bin/TriasPipeline.v defines
+     trias_assemble dbg fs fuel path text : the function `assemble` of assembler.rs = CtxModel.pipeline_gen (Context::assemble,
+       close_segment, finalize: the model of C05/C06/C13) followed by `post` on ctx.output() when the status is Success,
+       `return false` (Refused R_diagnostics) otherwise; LibPanic / LibOutOfFuel = the pipeline model's own panic / fuel
+       outcomes (never / not below the include depth: C06_never_panics, C06_no_out_of_fuel);
+     trias_main dbg fs fuel argv : `main` on the file system fs (argv[1] is read from fs).
+   C18_pipeline_map: whatever the pipeline returns as regions is a map with Rep and Bytes - Rep is C13_image_rep, Bytes is
+   the invariant BI of Bin/PipeBytes.v (every write path of the Context model writes bytes: encoder output, .du*, string /
+   hex / file bytes, 0xBE padding, MemoryMap::put), so Rep / Bytes are no longer hypotheses once the map comes from a
+   program.  Two typing conditions on the INPUT remain, because the model's strings are lists of N:
+     bytes text      := every element of the source text is < 256,
+     fs_bytes fs     := every file of the project is such a byte string
+   (PipeBytesText.v carries them through the tokenizer - slices, escapes, \u{..} encodings - and the parser to the string
+   literals).  C18_end_to_end: a program that assembles with nothing at addresses 0..255 yields, through `assemble`, a file
+   satisfying every clause of ImageSpec for the dictionary of its regions (or the empty-image / checksum-refusal return);
+   C18_end_to_end_failure / C18_main_failure_writes_nothing: a program that does not assemble writes nothing;
+   C18_assemble_total: with C06_no_out_of_fuel, no panic and no fuel outcome between the source text and the file;
+   C18_reference_image_partial: with C05's reference layout (`_partial` because C05's class is: single file, no .dfile,
+   deferred instructions only branches), the file decodes to exactly the reference image.
+
+   Everything else of the property is proved for the model, in both build profiles (dbg): no theorem about the
+   post-processing is `_partial`.
    * fuel: the padding loop runs on fuel = number of segments + 1; C18_pad shows that this always suffices (each
      iteration moves `prev` to the last address of a strictly later segment of the map handed to the loop), so
      OutOfFuel is not an outcome (C18_pad, C18_outcomes, C18_no_panic).
@@ -32,10 +56,13 @@
      every other cell of D is a zero on a 256-byte page that X touches, and every occupied address of D that is not a
      multiple of 256 has an occupied predecessor (so every segment starts on a page boundary). *)
 From Coq Require Import NArith List Bool.
+From Coq Require String.
 From Trion Require Import Uf2.ReaderSpec.
 From Trion Require Import Mem.MapModel Mem.DictSpec Mem.MapProofs Uf2.CrcSpec.
+From Trion Require Text.Types Text.ParseModel Asm.CtxModel Asm.LayoutSpec Asm.LayoutWf Asm.LayoutFinal Asm.LayoutBytes Arm.DisplayModel.
 From Trion Require Import Bin.TriasModel Bin.ImageSpec Bin.TriasProofs Bin.TriasProofs2 Bin.TriasProofs3 Bin.TriasProofs4
   Bin.TriasEmit Bin.TriasProofs5 Bin.TriasProofs6.
+From Trion Require Import Bin.PipeBytesMap Bin.PipeBytesText Bin.TriasPipeline.
 Import ListNotations.
 Open Scope N_scope.
 
@@ -175,4 +202,110 @@ Theorem C18_examples :
   (* the size condition: ex_same has nothing in page 0; ex_far has (0x10) and its padded map is small all the same *)
   /\ forallb (fun c => 256 <=? fst c) (abs ex_same) = true
   /\ match padded true ex_far with Go m2 => len (abs m2) + len m2 <=? 0xFFFFFFFF | _ => false end = true.
+Proof. vm_compute. repeat split; reflexivity. Qed.
+
+(* ================================================================ end to end: source text -> file *)
+(* (a) the regions the pipeline reports - whatever its status and diagnostics - are a memory map with C15's
+   representation invariant that holds bytes only: the hypotheses Rep / Bytes of the theorems above hold for every map
+   that comes from a program (every project fs, root path, source text, fuel, build profile) *)
+Theorem C18_pipeline_map : forall dbg fs fuel path text s diags regions, fs_bytes fs -> bytes text ->
+  CtxModel.pipeline_gen dbg fs fuel path text = CtxModel.Done s diags regions ->
+  exists m, regions = map_iter m /\ Rep m /\ Bytes m.
+Proof. exact pipeline_map. Qed.
+
+(* (b) a program that assembles (Success, no diagnostic) and places nothing at addresses 0..255: `assemble` of
+   assembler.rs returns false for an empty image, refuses under the oracle's refusal condition, and otherwise produces a
+   file that satisfies every clause of the oracle for the dictionary of the program's regions *)
+Theorem C18_end_to_end : forall dbg fs fuel path text regions, fs_bytes fs -> bytes text ->
+  CtxModel.pipeline_gen dbg fs fuel path text = CtxModel.Done CtxModel.Success [] regions -> page0_free (abs regions) ->
+  (trias_assemble dbg fs fuel path text = Ran (Refused R_empty) /\ abs regions = [])
+  \/ (trias_assemble dbg fs fuel path text = Ran (Refused R_checksum_overlap) /\ must_refuse (abs regions) = true)
+  \/ (abs regions <> [] /\ must_refuse (abs regions) = false /\
+      exists file, trias_assemble dbg fs fuel path text = Ran (POk file) /\ image_ok (abs regions) file = true).
+Proof. exact end_to_end. Qed.
+
+Theorem C18_end_to_end_image : forall dbg fs fuel path text regions, fs_bytes fs -> bytes text ->
+  CtxModel.pipeline_gen dbg fs fuel path text = CtxModel.Done CtxModel.Success [] regions -> page0_free (abs regions) ->
+  abs regions <> [] -> must_refuse (abs regions) = false ->
+  exists file, trias_assemble dbg fs fuel path text = Ran (POk file) /\ image_ok (abs regions) file = true.
+Proof. exact end_to_end_image. Qed.
+
+(* a program that does not assemble (Failure: diagnostics; CloseError): `assemble` returns false before touching buff *)
+Theorem C18_end_to_end_failure : forall dbg fs fuel path text s diags regions,
+  CtxModel.pipeline_gen dbg fs fuel path text = CtxModel.Done s diags regions -> s <> CtxModel.Success ->
+  trias_assemble dbg fs fuel path text = Ran (Refused R_diagnostics).
+Proof. exact end_to_end_failure. Qed.
+
+(* the library part of `assemble` never panics (C06_never_panics composed) *)
+Theorem C18_assemble_no_lib_panic : forall dbg fs fuel path text p, trias_assemble dbg fs fuel path text <> LibPanic p.
+Proof. exact trias_assemble_no_lib_panic. Qed.
+
+(* totality of `assemble` (C06_never_panics + C06_no_out_of_fuel + C18_no_panic composed): for a project with fewer files
+   than the include fuel whose successful image - if any - has nothing in page 0, `assemble` runs to its end and returns
+   true with a file or false: no panic and no fuel outcome anywhere between the source text and the file *)
+Theorem C18_assemble_total : forall dbg fs fuel path text files, fs_bytes fs -> bytes text ->
+  (forall p, fs p <> None -> In p files) -> (length files < fuel)%nat ->
+  (forall diags regions, CtxModel.pipeline_gen dbg fs fuel path text = CtxModel.Done CtxModel.Success diags regions ->
+     page0_free (abs regions)) ->
+  exists o, trias_assemble dbg fs fuel path text = Ran o /\ (forall s, o <> PPanic s) /\ o <> POutOfFuel.
+Proof. exact trias_assemble_total. Qed.
+
+(* main on a file system: `trias in.asm out.uf2` for such a program performs open(create), write_all(file),
+   set_len(|file|) on out.uf2 with a file the oracle accepts, and does not panic *)
+Theorem C18_main_end_to_end : forall dbg fs fuel a0 fip fop rest text regions, fs_bytes fs ->
+  fs fip = Some text ->
+  CtxModel.pipeline_gen dbg fs fuel fip text = CtxModel.Done CtxModel.Success [] regions -> page0_free (abs regions) ->
+  abs regions <> [] -> must_refuse (abs regions) = false ->
+  exists file, trias_main dbg fs fuel (a0 :: fip :: fop :: rest)
+                 = Ran ([E_open_create fop; E_write_all file; E_set_len (len file)], None)
+    /\ image_ok (abs regions) file = true.
+Proof. exact main_end_to_end. Qed.
+
+(* ... and when the input does not assemble (or cannot be read, or no input argument is given) main performs no
+   output-file operation at all *)
+Theorem C18_main_failure_writes_nothing : forall dbg fs fuel argv effs pan,
+  trias_main dbg fs fuel argv = Ran (effs, pan) ->
+  (forall a0 fip rest text, argv = a0 :: fip :: rest -> fs fip = Some text ->
+     forall diags regions, CtxModel.pipeline_gen dbg fs fuel fip text <> CtxModel.Done CtxModel.Success diags regions) ->
+  existsb touches_output effs = false.
+Proof. exact main_e2e_failure_writes_nothing. Qed.
+
+(* (c) with C05: a program of C05's class that is well formed per the reference layout (so it assembles: success is not
+   a hypothesis) with nothing in page 0, a non-empty image and no checksum conflict - the release binary's `assemble`
+   produces a file that the independent reader decodes to exactly the reference image image_dict placed (+ the checksum
+   word when 0x10000000 is occupied) with zero padding on the touched pages and nothing else (image_ok).
+   FULL STATEMENT (not proved): the same for every program that assembles, i.e. with C05's reference in place of the
+   regions for programs outside C05_class too (.dfile, .include, deferred non-branch instructions); for those
+   C18_end_to_end gives the statement relative to the pipeline's regions. *)
+Theorem C18_reference_image_partial : forall fs path text els placed env, fs_bytes fs -> bytes text ->
+  CtxModel.parse_source text = CtxModel.Parsed (map ParseModel.IOk els) None ->
+  LayoutSpec.layout_spec fs (map Types.e_val els) = Some (placed, env) ->
+  LayoutFinal.C05_class fs env els ->
+  LayoutWf.no_collision fs (map Types.e_val els) ->
+  page0_free (LayoutBytes.image_dict placed) -> LayoutBytes.image_dict placed <> [] ->
+  must_refuse (LayoutBytes.image_dict placed) = false ->
+  exists file, trias_assemble false fs CtxModel.include_fuel path text = Ran (POk file)
+    /\ image_ok (LayoutBytes.image_dict placed) file = true.
+Proof. exact reference_image. Qed.
+
+(* non-vacuity of the end-to-end statements, by evaluation of tokenizer, parser, Context model, post-processing and
+   oracle: a two-region program with a forward branch and a string assembles to a file the oracle accepts for the
+   pipeline's regions; a boot-sector program gets its checksum; an undefined symbol writes nothing *)
+Import String.
+Open Scope string_scope.
+Definition e2e_ok (t : String.string) : bool :=
+  let src := DisplayModel.bytes_of_string in
+  let nofs : Types.str -> option (list N) := fun _ => None in
+  match CtxModel.pipeline nofs (src "main.asm") (src t), trias_assemble false nofs CtxModel.include_fuel (src "main.asm") (src t) with
+  | CtxModel.Done CtxModel.Success [] regions, Ran (POk file) =>
+      image_ok (abs regions) file && forallb (fun c => N.leb 256 (fst c)) (abs regions) && negb (N.eqb (len regions) 0)
+  | _, _ => false
+  end.
+
+Theorem C18_end_to_end_examples :
+  e2e_ok ".addr 0x20000010; B later; NOP; .dstr ""a\u{e9}""; .addr 0x20000100; later: NOP;" = true
+  /\ e2e_ok ".addr 0x10000000; .du32 0x11223344; .addr 0x10000010; .du8 7;" = true
+  /\ trias_assemble false (fun _ => None) CtxModel.include_fuel (DisplayModel.bytes_of_string "main.asm")
+       (DisplayModel.bytes_of_string ".addr 0x20000000; .du32 nowhere;") = Ran (Refused R_diagnostics)
+  /\ fst (match trias_main false (fun _ => None) CtxModel.include_fuel [[0x74]; [0x61]; [0x6F]] with Ran r => r | _ => ([E_stdout_success], None) end) = [].
 Proof. vm_compute. repeat split; reflexivity. Qed.
